@@ -3,14 +3,115 @@
 manifest stays valid while checks are added)."""
 import json
 
-IMPLEMENTED = {
+TB = "Trusted base: the reference model / oracle code under harness/src (written from the RFCs, not from the crate), proptest, rustc/std."
+ALL_CHECKS = {
     "C01": {
         "technique": "property-based testing: proptest build-script generation + exhaustive boundary sweeps against an independent RFC 7252 reference encoder (round trip through the decoder); libFuzzer target wire_encode in the thorough tier",
         "text": "Generated-input search with an explicit oracle: every encoded image is compared byte for byte with a reference encoder written from RFC 7252 section 3 and decoded back field by field. Exhaustive over all 65536 first-option numbers, all value lengths across both thresholds and a delta x length boundary grid; random shuffled API scripts elsewhere. A pass outside the exhaustive parts means 'not found in N structured cases'.",
-        "note": "Trusted base: the reference encoder/model in harness/src/refmodel/wire.rs, proptest, rustc. Overflow-checks on and off (quick); udp / no_std feature sets, ASan harness and libFuzzer in the thorough tier.",
-        "design": "DESIGN.md section 3, C01",
+        "note": TB + " Overflow-checks on and off (quick); udp / no_std feature sets, ASan harness and libFuzzer in the thorough tier.",
+    },
+    "C02": {
+        "technique": "exhaustive byte-string enumeration + proptest-generated corruptions/prefixes with a decode->re-encode identity oracle; libFuzzer target wire_decode in the thorough tier",
+        "text": "Every accepted datagram is re-encoded without limit and compared with the input; only a trailing marker and the payload of a 0.00 message may be dropped, and the cut point is cross-checked with the reference parser. Exhaustive: 8 header templates x all tails of <= 2 (quick) / <= 3 (thorough) bytes, every option header byte x every 8-bit and (selected) 16-bit extension value, cumulative-number boundary shapes; plus every prefix and single-byte substitution of generated well-formed messages and random datagrams.",
+        "note": TB + " Parser panics are counted and left to C03. Overflow-checks on and off.",
+    },
+    "C03": {
+        "technique": "differential testing against an independent three-valued RFC 7252 reference parser over exhaustive byte-string families, generated corruptions and random datagrams, with panic capture; libFuzzer target wire_decode in the thorough tier",
+        "text": "from_bytes is compared with a reference parser that answers must-accept(fields) / must-reject(reason) / either; an accepted datagram must carry exactly the grammar's fields, a panic is always a violation. Same generators as C02; every reject reason is hit thousands of times. Stricter RFC-conformant behaviour (rejecting version != 1, empty payload after the marker, content in 0.00) is never reported.",
+        "note": TB + " Which MessageError variant is returned is not compared. Overflow-checks on (overflow = panic) and off (overflow = wrong fields).",
+    },
+    "C04": {
+        "technique": "property-based testing: (message, limit) pairs constructed to land on limit-1/limit/limit+1 via a reference length function, oracle success <=> exact RFC wire length <= limit; ASan harness build + libFuzzer wire_encode for the memory-safety clause (thorough)",
+        "text": "Every case checks all three entry points against the exact reference wire length (including limits L-1, L, L+1 around the message's own length), the returned bytes against the reference image, the error variant on refusal, and that option values beyond 65804 bytes are refused. The raw-pointer clause is decided by running the same generator in an AddressSanitizer build and a libFuzzer target in the thorough tier; in the plain build a wrong byte is caught by comparison and a hard crash is reported as a violation.",
+        "note": TB + " ASan sees out-of-allocation writes, not writes into spare capacity; uninitialised bytes are visible only as wrong values.",
+    },
+    "C05": {
+        "technique": "exhaustive enumeration of every number space compared with independently transcribed IANA/RFC registry tables (differential, both directions)",
+        "text": "All 65536 option numbers, 65536 content-format ids (plus ids beyond u16), 256 code bytes, 256 first header bytes, 4 types and 65536 observe values are enumerated completely; name->number, number->name, both round trips, c.dd text form, set_code/get_code, is_error and encoded/decoded header bytes are compared with tables that pair each enum variant with its registry number.",
+        "note": "Trusted base: the registry transcription in harness/src/refmodel/registry.rs. UnKnown placeholders are only required to keep their byte.",
+    },
+    "C06": {
+        "technique": "exhaustive enumeration (all 8/16-bit values, all byte strings <= 2/3 bytes at every width) + proptest for 32/64-bit values, strings and typed accessor histories against a strip-leading-zeros / big-endian-fold reference and std's UTF-8 validator",
+        "text": "Encodings must equal the minimal big-endian reference and decode back; decoding accepts exactly the strings no longer than the width with the big-endian value; text options are checked against std::str::from_utf8; typed getters/setters are run over generated histories and compared element by element (including Err elements) with the reference.",
+        "note": TB,
+    },
+    "C07": {
+        "technique": "exhaustive enumeration of the type x version x token-length x message-id product + proptest random requests and HandlingError shapes, oracle = field-by-field correlation rules and reference encoding of the reply",
+        "text": "The full 4 x 4 x 9 x 65536 product is enumerated; random requests with arbitrary code, options and payload check that nothing but message id, token and the derived type is carried over; apply_from_error is checked to change only code, payload and Content-Format and to report failure without a response or code.",
+        "note": TB,
+    },
+    "C08": {
+        "technique": "model-based property testing: a simulated in-order Block2 client and application stub drive the real handler through encoded bytes; exhaustive body lengths around block multiples + proptest transfer plans",
+        "text": "For each generated transfer plan (body, options, budget, client size strategy, chaining) the client requests blocks 0,1,2,.. and the harness checks block size, more flag, offsets, repeated options, single application call, cache release and byte-for-byte reassembly.",
+        "note": TB + " Calling protocol is the one of the in-crate TestServerHarness.",
+    },
+    "C09": {
+        "technique": "model-based property testing: generated upload plans (body, block size, duplicates, abandoned predecessor) against the real handler, oracle = reassembled body equality, response codes/options and application call count",
+        "text": "Every non-final block must be answered 2.31 with an echoed Block1 without reaching the application; the final block reaches it once with the exact body; oversized un-negotiated requests get 4.13 with a size hint (with an 'either' zone for the handler's 12-byte slack).",
+        "note": TB + " One open known finding (duplicate delivery of the final block) is excluded by construction from the main search and reproduced by a directed case.",
+    },
+    "C10": {
+        "technique": "property-based testing over (budget, overhead, client size) configurations with exhaustive bands around every power-of-two threshold; oracle = encoded lengths measured by the reference encoder and block-size rules",
+        "text": "Every handler-produced message is measured as encoded bytes against the budget; chosen block sizes must be powers of two in 16..1024, never above the client's, equal to the client's when it fits with 32 bytes to spare; the client's next upload block is encoded by the reference encoder and must fit too.",
+        "note": TB,
+    },
+    "C11": {
+        "technique": "stateful property-based testing / fuzzing of hostile request sequences with panic capture, error-renderability oracle and a buffer-growth invariant measured through a hook and independently through the public API; libFuzzer target block_hostile (thorough)",
+        "text": "Sequences of 1..6 hostile requests and application replies under budgets from 0 upward; every entry point must return normally, errors must be renderable 4.xx/5.xx, and no request may grow the upload buffer by more than 16 KiB beyond its own payload.",
+        "note": TB + " Buffer lengths come from a read-only hook when available and from prefix replay + probe block otherwise.",
+    },
+    "C12": {
+        "technique": "exhaustive enumeration of all interleavings of generated script sets (the harness owns the schedule of the &mut handler), oracle = per-transfer transcript equality with a solo run and message-id/token echo",
+        "text": "For each script set (2-3 transfers differing in exactly one of endpoint/method/path, including segmentation and prefix paths) every interleaving is executed on a fresh handler and each transfer's transcript of encoded responses and application observations is compared with its solo transcript.",
+        "note": TB,
+    },
+    "C13": {
+        "technique": "exhaustive enumeration (all num x more x szx triples, all byte strings <= 3 bytes, a num x size construction grid) against an RFC 7959 section 2.2 reference",
+        "text": "Complete enumeration of the 2^20 triples and the 2^24+ short byte strings; construction from byte sizes over 0..8200 and every power-of-two neighbour up to usize::MAX.",
+        "note": TB + " Size exponent 7 (reserved by RFC 7959) is inside the stated domain.",
+    },
+    "C14": {
+        "technique": "bounded exhaustive history enumeration + proptest long random histories, stepped against a reference model of the observe registry after every operation",
+        "text": "All operation sequences to depth 5 (quick) / 6 (thorough) over a small alphabet are enumerated and compared step by step with a model; random histories of length up to 200 over larger alphabets.",
+        "note": TB + " The unacknowledged counter is compared directly through a read-only hook when available.",
+    },
+    "C15": {
+        "technique": "the C14 history enumeration with limits {0,1,2} plus directed long histories at limits 10/254/255 and proptest notification parameters, against a counting model and the reference encoder",
+        "text": "Sequence numbers must rise by exactly one per round on an observed resource; eviction must happen exactly past the limit for every limit including 0 and 255, in both arithmetic profiles; notifications are compared with the reference encoding.",
+        "note": TB + " Sequence wrap at 2^32 rounds is out of reach of execution.",
+    },
+    "C16": {
+        "technique": "round-trip property testing: generated link-format documents (exhaustive short values over a structural alphabet + random) written by the writer and parsed back",
+        "text": "Targets, keys and unquoted values (both unquoting paths) must equal the originals for every generated document, newline option on and off, all three attribute writer methods.",
+        "note": TB,
+    },
+    "C17": {
+        "technique": "exhaustive enumeration of all strings <= 6 (quick) / <= 8 (thorough) over a structural alphabet + proptest random/prefix inputs, with panic capture, progress/substring/ordering invariants and a to_cow == to_string differential; libFuzzer target linkformat_parse (thorough)",
+        "text": "Parser totality and the agreement of the two unquoting paths are decided on a complete enumeration of short strings and on random longer ones.",
+        "note": TB,
+    },
+    "C18": {
+        "category": "fault_enumeration",
+        "technique": "fault injection: for each generated document every write-call index x {fail once, fail persistently} x newline on/off is enumerated completely with a fault-injecting fmt::Write sink; oracle = error reported, no write after the fault, sink content is a prefix of the fault-free output",
+        "text": "Complete enumeration of fault positions per document over a few thousand generated documents and two sink flavours.",
+        "note": TB,
+    },
+    "C19": {
+        "technique": "exhaustive enumeration of named values and short path strings + proptest setter histories and random messages through both coap-message trait versions, oracle = registry tables, reference encoder and a model of the raw state",
+        "text": "Every setter/getter pair is checked against the raw code/option/payload state and the encoded bytes, whatever the packet held before; unnamed values must surface as the documented unknown/error results; trait views must agree with the model.",
+        "note": TB,
+    },
+    "C20": {
+        "technique": "generated histories with real time: retention under intervening keys (1 h expiry), must-be-expired after >= 4x the configured duration, reclamation counted through Clone/Drop-counting endpoints and a read-only hook",
+        "text": "Only directions that cannot flake under real time are asserted.",
+        "note": TB + " Real clock (no fake clock for lru_time_cache is available offline).",
     },
 }
+for _k, _v in ALL_CHECKS.items():
+    _v["design"] = "DESIGN.md section 3, " + _k
+
+IMPLEMENTED_IDS = ["C01", "C02", "C03", "C04", "C05", "C06", "C13"]
+IMPLEMENTED = {k: ALL_CHECKS[k] for k in IMPLEMENTED_IDS}
 
 NOT_YET = "check not built yet in this round; planned per DESIGN.md section 3"
 
